@@ -103,3 +103,25 @@ def run(chk):
         for b in range(14):
             chk.eq(f"C52.closure[h={h}].row[{PIDS[b]}]", C[hi, 0, b, 0], 1 if b == hi else 0, fn="eko.runner.operators:_dot4", goal="unit row at h is preserved by the product", replay=rp)
             chk.eq(f"C52.closure[h={h}].col[{PIDS[b]}]", C[b, 0, hi, 0], 1 if b == hi else 0, fn="eko.runner.operators:_dot4", goal="unit column at h is preserved by the product", replay=rp)
+
+    # (c) the parts a path consists of: a path between nf0 and nff flavours activates the quarks up to max(nf0, nff) and no others.  On the real recipe list
+    #     (recipes._elements over Atlas.matched_path, symbolic scales and walls, all 16 pairs): every evolution has nf <= max(nf0, nff) -- it is built by
+    #     ad_to_evol_map(.., nf), clause (a) -- and every matching is the one of a heavy quark hq <= max(nf0, nff): parts.match builds it with
+    #     split_ad_to_evol_map(.., nf = hq - 1), which leaves the quarks above hq alone (clause (a)) and activates hq.
+    from eko.runner import recipes
+    from eko.io.items import Evolution, Matching
+    from eko.matchings import Atlas
+    from eko.quantities.heavy_quarks import MatchingScales
+    c_, b_, t_, mu0, muf = (T.var(x) for x in ("c", "b", "t", "mu0", "muf"))
+    base = [mu0 > 0, muf > 0, c_ > 0, c_ <= b_, b_ <= t_]
+    fnr = "eko.runner.recipes:_elements"
+    chk.under_contract(fnr, "eko.matchings:Atlas.matched_path")
+    for nf0 in (3, 4, 5, 6):
+        for nff in (3, 4, 5, 6):
+            atlas = Atlas(MatchingScales([c_, b_, t_]), (mu0, nf0))
+            top = max(nf0, nff)
+            for pt, _pc, recs in chk.run_paths(f"C52.parts_of_the_path[{nf0}->{nff}]", lambda: recipes._elements((muf, nff), atlas), base, fn=fnr, replay=rp):
+                bad = [repr(r) for r in recs if (isinstance(r, Evolution) and not (3 <= r.nf <= top)) or (isinstance(r, Matching) and not (4 <= r.hq <= top)) or not isinstance(r, (Evolution, Matching))]
+                chk.ground(f"{pt}.no_part_activates_a_heavier_quark", not bad, fn=fnr, replay=rp, detail="; ".join(bad[:3]),
+                           goal=f"every evolution of the path has nf <= {top} and every matching is that of a heavy quark <= {top}: the quarks above stay inactive in every part")
+            chk.configs += 1
